@@ -104,7 +104,7 @@ class ScipyStubs:
     """Contract stubs.  Every call is logged in h.events."""
 
     def __init__(self, h, assume_bracket=True, root_zero=True, bad_bracket="assume",
-                 nondet_converged=False):
+                 nondet_converged=False, probe_after_root=False):
         """bad_bracket: 'assume' -- the bracket precondition f(a) f(b) <= 0 is part of the
         contract (paths violating it are outside the claim); 'raise' -- raise ValueError like
         scipy does (for code that catches it as a designed branch)."""
@@ -113,6 +113,7 @@ class ScipyStubs:
         # result is converged; nondet_converged=True also explores converged=False for code
         # that reads the flag
         self.nondet_converged = nondet_converged
+        self.probe_after_root = probe_after_root
         self.bad_bracket = bad_bracket
         self.assume_bracket = assume_bracket
         self.root_zero = root_zero
@@ -151,6 +152,14 @@ class ScipyStubs:
         if conv and self.root_zero:
             h.assume(eq(f(r, *args), 0), "root_scalar contract: a converged result is a zero of "
                      "the function it was given")
+        if self.probe_after_root and bracket is not None:
+            # a bracketing solver returns the better of its last two iterates: the point it evaluated
+            # LAST is in general not the root it returns
+            q = h.fresh("probe")
+            h.assume(OR(AND(le(a, q), le(q, b)), AND(le(b, q), le(q, a))))
+            f(q, *args)
+            self.last_root = r
+            return Result(root=r, converged=conv, flag="converged" if conv else "convergence error", probe=q)
         self.last_root = r
         return Result(root=r, converged=conv, flag="converged" if conv else "convergence error")
 
